@@ -107,7 +107,7 @@ where
 	out.push((name == C::NAME) as i128);
 
 	match variant {
-		"run" | "clone" | "serde" | "chunk" | "intofn" => {
+		"run" | "clone" | "serde" | "chunk" | "intofn" | "serde_each" => {
 			let inst = match catch(|| cfg.clone().init(&c0)) {
 				None => {
 					out.push(T_PANIC);
@@ -131,6 +131,35 @@ where
 								break;
 							}
 						}
+					}
+				}
+				"serde_each" => {
+					// at every step: snapshot, restore, look ahead; a flag (-5 ok / -6 differs / -7 rejected) before each result
+					let look = t.next_usize();
+					for i in 0..cs.len() {
+						let flag = match vtree::to_value(&inst) {
+							Err(_) => -7,
+							Ok(snap) => match catch(|| vtree::from_value::<C::Instance>(snap.clone())) {
+								None | Some(Err(_)) => -7,
+								Some(Ok(mut r)) => {
+									let mut c = inst.clone();
+									let mut ok = vtree::to_value(&r).ok() == Some(snap);
+									for x in cs[i..].iter().take(look) {
+										let (mut a, mut b) = (Vec::new(), Vec::new());
+										push_result(&r.next(x), &mut a);
+										push_result(&c.next(x), &mut b);
+										ok &= a == b;
+									}
+									if ok {
+										-5
+									} else {
+										-6
+									}
+								}
+							},
+						};
+						out.push(flag);
+						push_result(&inst.next(&cs[i]), &mut out);
 					}
 				}
 				"intofn" => {
